@@ -147,6 +147,21 @@ macro_rules! Header {
                     _ => None
                 }
             }
+            /// `from_bytes` for a name in any letter case ( header names are case-insensitive )
+            #[inline]
+            pub fn from_bytes_ignore_case(bytes: &[u8]) -> Option<Self> {
+                const MAX_LEN: usize = {
+                    let (mut max, lens) = (0, [$($lower_case.len()),*]);
+                    let mut i = 0; while i < lens.len() {if lens[i] > max {max = lens[i]}; i += 1}
+                    max
+                };
+                if let Some(it) = Self::from_bytes(bytes) {return Some(it)}
+                if bytes.len() > MAX_LEN {return None}
+                let mut lower = [0; MAX_LEN];
+                lower[..bytes.len()].copy_from_slice(bytes);
+                lower[..bytes.len()].make_ascii_lowercase();
+                Self::from_bytes(&lower[..bytes.len()])
+            }
         }
 
         impl<T: AsRef<[u8]>> PartialEq<T> for Header {
